@@ -12,6 +12,8 @@ import TypedpyModel.Lemmas.Sound
 import TypedpyModel.Sem.Entry
 import TypedpyModel.Lemmas.Formats
 import TypedpyModel.Sem.Decimal
+import TypedpyModel.Sem.EntryD
+import TypedpyModel.Lemmas.BridgeWf
 namespace Typedpy.C01
 open Typedpy
 
@@ -161,6 +163,102 @@ theorem hook_example :
       | .ok (.inst "A" _) => true | _ => false) = true := by
   decide
 
+/-! ### the Deserializer as an entry point of the chain -/
+
+theorem c01_dClassRef_dict_ok (kvs : List (PyVal × PyVal)) (drop : Bool) (pre : List (String × PyVal) → R Unit)
+    (k : List (String × PyVal) → R PyVal) (x : PyVal)
+    (h : dClassRef (.dict kvs) drop pre k = .ok x) : ∃ kw, k kw = .ok x := by
+  unfold dClassRef at h
+  simp only at h
+  split at h
+  · split at h
+    · exact ⟨_, h⟩
+    · rcases hb : pre (strKw kvs) with e' | u <;> rw [hb] at h <;> simp at h
+  · exact ⟨_, h⟩
+
+/-- whatever `Deserializer(cls).deserialize` returns - for every document and every flag setting - was built by the
+    constructor from some keyword arguments, hence is well-formed -/
+theorem deserialize_sound (O : Oracles) (opts : DeserOpts) (cls : FieldDecl) (d x : PyVal)
+    (hw : wfDecl cls = true) (h : deserialize O opts cls d = .ok x) : wellFormed O cls x = true := by
+  unfold deserialize at h
+  cases cls with
+  | struct c fields defaults => ?_
+  | _ => simp at h
+  simp only at h
+  split at h
+  · rename_i kvs
+    rcases c01_dClassRef_dict_ok kvs _ _ _ x h with ⟨kw, hk⟩
+    rcases bindE_eq_ok hk with ⟨args, _, h2⟩
+    exact construct_sound O _ args x hw (by simpa [construct] using h2)
+  · cases h
+
+/-- each entry point of the extended chain (the Deserializer included) preserves "well-formed and accepted by the hook" -/
+theorem entryD_sound (O : Oracles) (cls : FieldDecl) (x y : PyVal) (op : EntryOpD)
+    (hw : wfDecl cls = true) (hx : wellFormed O cls x = true ∧ O.hookOk (instAttrs x) = true)
+    (h : applyEntryD O cls x op = .ok y) :
+    wellFormed O cls y = true ∧ O.hookOk (instAttrs y) = true := by
+  have key : ∀ (opts : DeserOpts) (d z : PyVal), bindE (deserialize O opts cls d) (hookCheck O) = .ok z →
+      wellFormed O cls z = true ∧ O.hookOk (instAttrs z) = true := by
+    intro opts d z hz
+    rcases bindE_eq_ok hz with ⟨w, hw1, h2⟩
+    unfold hookCheck at h2
+    by_cases hk : O.hookOk (instAttrs w) = true
+    · simp [hk] at h2; subst h2
+      exact ⟨deserialize_sound O opts cls d w hw hw1, hk⟩
+    · simp [hk] at h2
+  cases op with
+  | plain op => exact entryH_sound O cls x y op hw hx h
+  | deser opts doc => exact key opts doc y h
+  | reser opts =>
+    simp only [applyEntryD] at h
+    rcases bindE_eq_ok h with ⟨d, _, h2⟩
+    exact key opts d y h2
+
+/-- **C01 with the Deserializer**: any chain of validating entry points - copies, clones, from_other_class, cast_to,
+    `Deserializer.deserialize` of ANY document under any flags, serialize-then-deserialize - yields an instance that
+    is well-formed and that the class's hook accepts -/
+theorem entryD_chain_sound (O : Oracles) (cls : FieldDecl) (hw : wfDecl cls = true) :
+    ∀ (chain : List EntryOpD) (x y : PyVal),
+      (wellFormed O cls x = true ∧ O.hookOk (instAttrs x) = true) →
+      runChainD O cls x chain = .ok y → wellFormed O cls y = true ∧ O.hookOk (instAttrs y) = true
+  | [], x, y, hx, h => by simp only [runChainD] at h; cases h; exact hx
+  | op :: rest, x, y, hx, h => by
+    simp only [runChainD] at h
+    rcases bindE_eq_ok h with ⟨z, hz, h2⟩
+    exact entryD_chain_sound O cls hw rest z y (entryD_sound O cls x z op hw hx hz) h2
+
+/-- a chain that STARTS with the Deserializer needs no constructed instance to start from -/
+theorem deser_then_chain_sound (O : Oracles) (cls : FieldDecl) (hw : wfDecl cls = true) (opts : DeserOpts)
+    (doc x0 y : PyVal) (chain : List EntryOpD)
+    (h : runChainD O cls x0 (.deser opts doc :: chain) = .ok y) :
+    wellFormed O cls y = true ∧ O.hookOk (instAttrs y) = true := by
+  simp only [runChainD] at h
+  rcases bindE_eq_ok h with ⟨z, hz, h2⟩
+  simp only [applyEntryD] at hz
+  rcases bindE_eq_ok hz with ⟨w, hw1, h3⟩
+  unfold hookCheck at h3
+  by_cases hk : O.hookOk (instAttrs w) = true
+  · simp [hk] at h3; subst h3
+    exact entryD_chain_sound O cls hw chain w y ⟨deserialize_sound O opts cls doc w hw hw1, hk⟩ h2
+  · simp [hk] at h3
+
+/-- non-vacuity: a document is deserialized, cloned and cast; an ill-formed document and a hook-rejected one are refused -/
+theorem deser_chain_example :
+    let O : Oracles := { reMatch := fun _ _ => true,
+                         hookOk := fun s => match lookup "b" s with | some (.bool true) => false | _ => true }
+    let cls : FieldDecl := .struct { name := "A", required := ["a"], addl := false, accepts := ["A"] }
+        [("a", .seqOf .list (.integer { min := some ⟨0, 1⟩ }) {}), ("b", .boolean)] []
+    (match runChainD O cls .none [.deser {} (.dict [(.str "a", .list [.int 1, .int 2]), (.str "b", .bool false)]),
+          .plain (.shallowClone [("a", .list [.int 3])]), .plain .castTo] with
+      | .ok x => wellFormed O cls x | .error _ => false) = true
+    ∧ (match runChainD O cls .none [.deser {} (.dict [(.str "a", .list [.int 1, .int (-2)])])] with
+      | .error _ => true | .ok _ => false) = true
+    ∧ (match runChainD O cls .none [.deser {} (.dict [(.str "a", .list []), (.str "b", .bool true)])] with
+      | .error .valueErr => true | _ => false) = true
+    ∧ (match runChainD O cls (.inst "A" [("a", .list [.int 5])]) [.plain .copy, .reser {}] with
+      | .ok x => wellFormed O cls x | .error _ => false) = true := by
+  decide
+
 /-! ### what well-formedness says about one field; the extension string fields -/
 
 /-- in a well-formed instance every declared field that is set conforms to its declaration -/
@@ -282,6 +380,77 @@ theorem formatted_example :
         | .error .valueErr => true | _ => false) = true
     ∧ wellFormed O cls (.inst "A" [("ips", .list [.str "1.2.3"])]) = false
     ∧ wellFormed O cls (.inst "A" [("ips", .list []), ("tag", .str "abcd")]) = false := by
+  decide
+
+/-! ### classes as the class-definition model records them (Sem/Define.lean → Sem/DefineBridge.lean) -/
+
+/-- the declaration a class record denotes is well-formed (`wfDecl`) as soon as the record is what
+    `StructMeta.__new__` leaves behind: distinct member names, the signature demands only declared fields, and the
+    members' own declarations are well-formed -/
+theorem bridge_wfDecl (c : ClassDef) (ord acc : List String) (hk : KeysNodup c.allFields)
+    (hreq : ∀ n ∈ c.sig.req, n ∈ Bridge.defOrder c)
+    (hm : ∀ n d dflt, (n, Member.field d dflt) ∈ c.allFields → wfDecl d = true) :
+    wfDecl (c.toStruct ord acc) = true := by
+  have hd : (Bridge.defOrder c).Nodup := by
+    unfold Bridge.defOrder Bridge.fieldDecls
+    exact List.Nodup.sublist (c01_memberDecls_keys_sublist c.allFields) hk
+  simp only [ClassDef.toStruct, wfDecl, Bool.and_eq_true]
+  refine ⟨⟨?_, ?_⟩, ?_⟩
+  · rw [c01_strNodup_iff, c01_orderBy_names]
+    exact (c01_sigOrder_nodup c ord hd).filter _
+  · rw [List.all_eq_true]
+    intro n hn
+    rw [List.contains_iff_mem]
+    exact (c14_mem_toStruct_names c ord n).mpr (hreq n hn)
+  · apply c01_wfFields_of_all
+    intro p hp
+    have := (c14_mem_toStruct_fields c ord p).mp hp
+    have hmem : p ∈ Bridge.fieldDecls c := by
+      obtain ⟨n, d⟩ := p
+      exact lookup_mem this
+    exact c01_memberDecls_wf c.allFields hm p hmem
+
+/-- **C01 for classes as the class-definition model records them** (Sem/Define.lean → Sem/DefineBridge.lean): whatever
+    `cls(**kw)` returns for a class record `c` - any definition history, any inheritance - is, up to the class's Constants,
+    a well-formed instance of the declaration the record denotes -/
+theorem bridge_instantiate_sound (O : Oracles) (c : ClassDef) (ord : List String) (kw : List (String × PyVal))
+    (x : PyVal) (hw : wfDecl (c.toStruct ord [c.name]) = true) (h : instantiateOrd O c ord kw = .ok x) :
+    ∃ x0, x = addConstants c.constants x0 ∧ wellFormed O (c.toStruct ord [c.name]) x0 = true := by
+  unfold instantiateOrd at h
+  split at h; · cases h
+  split at h; · cases h
+  split at h; · cases h
+  split at h; · cases h
+  rcases bindE_eq_ok h with ⟨x0, h0, h1⟩
+  cases h1
+  exact ⟨x0, rfl, construct_sound O _ kw x0 hw h0⟩
+
+/-- … unconditionally for the records `StructMeta.__new__` leaves behind -/
+theorem bridge_instantiate_sound_uncond (O : Oracles) (c : ClassDef) (ord : List String) (kw : List (String × PyVal))
+    (x : PyVal) (hk : KeysNodup c.allFields) (hreq : ∀ n ∈ c.sig.req, n ∈ Bridge.defOrder c)
+    (hm : ∀ n d dflt, (n, Member.field d dflt) ∈ c.allFields → wfDecl d = true)
+    (h : instantiateOrd O c ord kw = .ok x) :
+    ∃ x0, x = addConstants c.constants x0 ∧ wellFormed O (c.toStruct ord [c.name]) x0 = true :=
+  bridge_instantiate_sound O c ord kw x (bridge_wfDecl c ord [c.name] hk hreq hm) h
+
+/-! ### OneOf / AllOf keep the value as it was given (fixed in /repo 89fd84a)
+
+For a short while (/repo 95931f6) OneOf / AllOf stored what the matched / first option built; such a value need not be
+accepted by the field again (AllOf[Float(minimum=0), Integer(maximum=5)] given 2 stored 2.0; OneOf[Boolean, Enum[1, 3]]
+given 'True' stored True), so `copy.deepcopy` and every clone of a valid instance raised.  The construct suite found it
+(`copy-raises:deepcopy:{allOf,oneOf}`); since 89fd84a the given value is kept (as a private copy). -/
+
+/-- the two inputs that exposed the regression: what is stored is the input itself, and it is accepted again; a clone
+    of the instance succeeds -/
+theorem fixed_stored_value_revalidates :
+    let O : Oracles := { reMatch := fun _ _ => true }
+    let fA : FieldDecl := .allOf [.float { min := some ⟨0, 1⟩ }, .integer { max := some ⟨5, 1⟩ }]
+    let fO : FieldDecl := .oneOf [.boolean, .enumLit [.int 1, .int 3]]
+    (match validate O fA (.int 2) with | .ok (.int 2) => true | _ => false) = true
+    ∧ (match validate O fO (.str "True") with | .ok (.str s) => s == "True" | _ => false) = true
+    ∧ (match runChain O (.struct { name := "A", required := [], addl := false, accepts := ["A"] } [("b", fA), ("c", fO)] [])
+          (.inst "A" [("b", .int 2), ("c", .str "True")]) [.deepcopy, .shallowClone [], .castTo] with
+        | .ok (.inst "A" _) => true | _ => false) = true := by
   decide
 
 /-! ### non-vacuity -/
